@@ -379,6 +379,11 @@ def run(ctx) -> None:
                 parts.append(f"keyword sets differ for {k0}: sync {sorted(kw_diff[k0][0])} vs async {sorted(kw_diff[k0][1])}")
             msg = "; ".join(parts)
         rep.add("C02.R5", f"{label}:actions", ok, f"{fs[0].module.rel}:{fs[0].lineno}", msg)
+    # a failing (or pausing) run ends the same way under both runners: each sibling's handler filters the partial values
+    # with the quiet default policy, so neither can replace the node's error by a policy error of its own
+    from .c11 import check_handlers_filter_quietly
+
+    check_handlers_filter_quietly(ctx, "C02.R5")
     # constructed raises of the execute loops happen under the same guards in both siblings
     def raise_sigs(fs: list[FuncInfo]) -> dict[tuple, int]:
         out: dict[tuple, int] = {}
